@@ -23,7 +23,7 @@ type c03Spec struct {
 	NPipes int    `json:"npipes"`
 	NOps   int    `json:"nops"`
 	// parked mode
-	Park    string `json:"park,omitempty"`    // drop | busy
+	Park    string `json:"park,omitempty"`    // drop | busy; lost mode: retry0 | nopeers
 	Abandon string `json:"abandon,omitempty"` // send | timeout
 	Order   string `json:"order,omitempty"`   // both | stale-only
 	// sendfail mode
@@ -78,9 +78,25 @@ func TestC03(t *testing.T) {
 			}
 		}
 	}
+	for rep := 0; rep < r.Pick(2, 150); rep++ {
+		for _, cause := range []string{"retry0", "nopeers"} {
+			for _, rs := range []string{"parked", "after", "none"} {
+				for _, ord := range []string{"both", "stale-only", "before-send", "after-reply"} {
+					for _, route := range []string{"survivor", "new"} {
+						if cause == "nopeers" && route == "survivor" {
+							continue // every connection is gone
+						}
+						cases = append(cases, mon.CaseSpec{Name: "lost", Spec: c03Spec{Mode: "lost", Park: cause, Abandon: rs, Order: ord, Wait: route, NCtx: 1 + rnd.Intn(3)}})
+					}
+				}
+			}
+		}
+	}
 	r.Run(cases, func(c *mon.Case) {
 		sp := c.Spec.(c03Spec)
 		switch sp.Mode {
+		case "lost":
+			c03Lost(c, sp)
 		case "sendfail":
 			c03SendFail(c, sp)
 		case "replyrace":
